@@ -390,7 +390,7 @@ def _string_cases():
             if n == 3 and not (ps[0] in (38, 48, 1, 0) or ps[1] in (38, 48)):
                 continue
             out.append("a\x1b[" + ";".join(map(str, ps)) + "mb")
-    for extra in ("\x1b[38;2;10;20m", "\x1b[48;2;1;2;3m", "\x1b[38;5m", "\x1b[1;38m", "\x1b[38;2m", "\x1b[48;5;7;1m"):
+    for extra in ("\x1b[1;m", "\x1b[;m", "\x1b[31;m", "\x1b[;1m", "\x1b[0;;1m", "\x1b[;;m", "\x1b[38;2;10;20m", "\x1b[48;2;1;2;3m", "\x1b[38;5m", "\x1b[1;38m", "\x1b[38;2m", "\x1b[48;5;7;1m"):
         out.append("a" + extra + "b")
     for pre in ("", "a"):
         for fr in FRAGMENTS:
